@@ -20,11 +20,14 @@
                   base        : `const int base = E(o)` between the levels (or NoE),
                   omap        : the injective map (o,i) -> cell of `out` used by this nest,
                   style       : semantically neutral rendering choices (annotations),
-                  phases      : Seq([stmts : Seq(stmt), nobar : BOOLEAN])]  one @inner nest each
+                  phases      : Seq([stmts : Seq(stmt), nobar : BOOLEAN, wrap])]  one @inner nest each;
+                                wrap = "none" | "block" (`{ for .. @inner }`) | "ifo" | "ifa": the @inner
+                                nest sits in `if (U) { .. }` with U uniform over the @outer iteration
         stmt   = [op, e, cond, cell, n]:
                   out     out[Inj(o,i)]  = e          outadd  out[Inj(o,i)] += e
                   sh      sh[i] = e                    exset   ex  = e      exadd  ex += e
                   atomic  @atomic acc[cell] += e       let     const int tmp = e
+                  atomsub @atomic acc[cell] -= e       atominc @atomic acc[cell]++   atomdec @atomic --acc[cell]
                   cond # "none": `if (Cond(o,i)) S`;   n > 1: `for (t < n) S`
         expr   = [k, s, v, l, r] trees over constants, the scalar arguments a and b, the
                  linear iterators o and i, in[..] (never written), sh[..], ex, tmp, base,
@@ -37,6 +40,7 @@ CONSTANTS
   Menu(_),          \* class -> set of candidate statements (the rules below filter them)
   Plans(_),         \* class -> set of plans: <<  << stmts in phase 1, .. >> per nest  >>
   NoBarChoices(_),  \* class -> subset of BOOLEAN: may an @inner loop carry @nobarrier
+  Wraps(_),         \* class -> set of wrappers an @inner nest may be put in
   ArgVecs,          \* sequence of argument records [a, b, in, out, acc]
   CheckArgs,        \* set of indices into ArgVecs the run machine is started with
   Mode,             \* "design": build, then run under all interleavings; "emit": build, print
@@ -139,6 +143,13 @@ Env(nest, arg, o, i, S) ==
    sh |-> S.sh, ex |-> S.ex[i + 1], tmp |-> S.tmp, base |-> BaseOf(nest, arg, o)]
 
 Active(nest, o, i) == o * IT(nest) + i < nest.limit
+\* is the @inner nest of phase ph executed in @outer iteration o (uniform over the inner iterations)
+PhaseOn(ph, arg, o) ==
+  CASE ph.wrap \in {"none", "block"} -> TRUE
+    [] ph.wrap = "ifo" -> o % 2 = 0
+    [] ph.wrap = "ifa" -> arg.a > 0
+AtomicOps == {"atomic", "atomsub", "atominc", "atomdec"}
+AtomDelta(s, v) == CASE s.op = "atomic" -> v [] s.op = "atomsub" -> 0 - v [] s.op = "atominc" -> 1 [] s.op = "atomdec" -> 0 - 1
 
 \* one application of the basic operation (condition and repetition are handled by the callers)
 Apply(s, nest, arg, o, i, S) ==
@@ -154,17 +165,18 @@ Apply(s, nest, arg, o, i, S) ==
          [] s.op = "exset"  -> [S EXCEPT !.ex[i + 1] = v]
          [] s.op = "exadd"  -> IF S.ex[i + 1] = UNDEF THEN [S EXCEPT !.bad = TRUE]
                                ELSE [S EXCEPT !.ex[i + 1] = @ + v]
-         [] s.op = "atomic" -> [S EXCEPT !.acc[a] = @ + v]
+         [] s.op \in AtomicOps -> [S EXCEPT !.acc[a] = @ + AtomDelta(s, v)]
          [] s.op = "let"    -> [S EXCEPT !.tmp = v]
 
 RECURSIVE Repeat(_, _, _, _, _, _, _)
 Repeat(k, s, nest, arg, o, i, S) ==
   IF k = 0 THEN S ELSE Repeat(k - 1, s, nest, arg, o, i, Apply(s, nest, arg, o, i, S))
 
-Guard(s, nest, arg, o, i, S) == Active(nest, o, i) /\ Cond(s.cond, Env(nest, arg, o, i, S))
+Guard(s, ph, nest, arg, o, i, S) ==
+  Active(nest, o, i) /\ PhaseOn(ph, arg, o) /\ Cond(s.cond, Env(nest, arg, o, i, S))
 
-ExecStmt(s, nest, arg, o, i, S) ==
-  IF Guard(s, nest, arg, o, i, S) THEN Repeat(s.n, s, nest, arg, o, i, S) ELSE S
+ExecStmt(s, ph, nest, arg, o, i, S) ==
+  IF Guard(s, ph, nest, arg, o, i, S) THEN Repeat(s.n, s, nest, arg, o, i, S) ELSE S
 
 -----------------------------------------------------------------------------
 (* SeqRun: the sequential reading.  Nests in order; @outer iterations in order, each with a
@@ -173,15 +185,15 @@ ExecStmt(s, nest, arg, o, i, S) ==
 Fresh(n) == [j \in 1..n |-> UNDEF]
 
 RECURSIVE SeqStmts(_, _, _, _, _, _, _)
-SeqStmts(stmts, k, nest, arg, o, i, S) ==
-  IF k > Len(stmts) THEN S
-  ELSE SeqStmts(stmts, k + 1, nest, arg, o, i, ExecStmt(stmts[k], nest, arg, o, i, S))
+SeqStmts(ph, k, nest, arg, o, i, S) ==
+  IF k > Len(ph.stmts) THEN S
+  ELSE SeqStmts(ph, k + 1, nest, arg, o, i, ExecStmt(ph.stmts[k], ph, nest, arg, o, i, S))
 
 RECURSIVE SeqInner(_, _, _, _, _, _)
 SeqInner(ph, nest, arg, o, i, S) ==
   IF i = IT(nest) THEN S
   ELSE SeqInner(ph, nest, arg, o, i + 1,
-                SeqStmts(ph.stmts, 1, nest, arg, o, i, [S EXCEPT !.tmp = UNDEF]))
+                SeqStmts(ph, 1, nest, arg, o, i, [S EXCEPT !.tmp = UNDEF]))
 
 RECURSIVE SeqPhases(_, _, _, _, _)
 SeqPhases(p, nest, arg, o, S) ==
@@ -219,21 +231,26 @@ SchemeBar(nest, b) ==
   /\ ~nest.phases[b].nobar
   /\ RefsSh(nest.phases[b])
 BarAfter(nest, b) == BarrierRule = "scheme" /\ SchemeBar(nest, b)
-BarBetween(nest, q, r) == \E b \in q..(r - 1) : SchemeBar(nest, b)
+\* a barrier that every inner iteration passes between phase q and phase r: the barrier behind a
+\* conditionally executed @inner nest only counts for the accesses of that nest itself
+Uncond(ph) == ph.wrap \in {"none", "block"}
+BarBetween(nest, q, r) == \E b \in q..(r - 1) : SchemeBar(nest, b) /\ (Uncond(nest.phases[b]) \/ b = q)
 
 Rule(name, ok) == name \in RelaxRules \/ ok
 
 StmtShapeOK(s) ==
-  /\ s.op \in {"out", "outadd", "sh", "exset", "exadd", "atomic", "let"}
-  /\ s.cond # "none" => s.op \in {"out", "outadd", "atomic", "exadd"}
+  /\ s.op \in {"out", "outadd", "sh", "exset", "exadd", "let"} \cup AtomicOps
+  /\ s.cond # "none" => s.op \in {"out", "outadd", "exadd"} \cup AtomicOps
   /\ s.n >= 1
-  /\ s.n > 1 => s.op \in {"outadd", "atomic", "exadd"}
+  /\ s.n > 1 => s.op \in {"outadd", "exadd"} \cup AtomicOps
 
 \* may statement s be appended to the last phase of nest?
 Allowed(s, nest) ==
   LET r    == Len(nest.phases)
       cur  == nest.phases[r]
       prev == UNION {StmtsOf(nest.phases[q]) : q \in 1..(r - 1)}
+      \* statements every inner iteration has executed before s: unconditional earlier phases, and this phase
+      sure == UNION {StmtsOf(nest.phases[q]) : q \in {x \in 1..(r - 1) : Uncond(nest.phases[x])}}
       here == StmtsOf(cur)
       ks   == Kinds(s.e)
       others == {x \in ShLeaves(s) : x[2] # "own"}
@@ -247,14 +264,14 @@ Allowed(s, nest) ==
   /\ "tmp" \in ks => \E t \in here : t.op = "let"
   /\ s.op = "let" => ~\E t \in here : t.op = "let"
   \* ex is read / updated only after the same inner index assigned it unconditionally
-  /\ Rule("ex-after-set", ("ex" \in ks \/ s.op = "exadd") => \E t \in prev \cup here : t.op = "exset")
+  /\ Rule("ex-after-set", ("ex" \in ks \/ s.op = "exadd") => \E t \in sure \cup here : t.op = "exset")
   \* own cell of sh: the same inner index wrote it before
-  /\ Rule("sh-own-after-set", <<"sh", "own">> \in Leaves(s.e) => \E t \in prev \cup here : t.op = "sh")
+  /\ Rule("sh-own-after-set", <<"sh", "own">> \in Leaves(s.e) => \E t \in sure \cup here : t.op = "sh")
   \* other cells of sh: all of sh was written in an earlier phase, with a barrier in between,
   \* and nobody writes sh in this phase
   /\ Rule("sh-others-across-barrier",
           others # {} =>
-            /\ \E q \in 1..(r - 1) : WritesSh(nest.phases[q])
+            /\ \E q \in 1..(r - 1) : WritesSh(nest.phases[q]) /\ Uncond(nest.phases[q])
             /\ \A q \in 1..(r - 1) : WritesSh(nest.phases[q]) => BarBetween(nest, q, r)
             /\ ~WritesSh(cur))
   \* writing sh: no earlier phase may still be reading other cells, nobody reads others here
@@ -308,13 +325,14 @@ CurPhase == Len(LastNest.phases)
 PhaseFull == CurNest > 0 /\ CurPhase > 0 /\ Len(LastNest.phases[CurPhase].stmts) = NestPlan[CurPhase]
 NestFull  == CurNest > 0 /\ CurPhase = Len(NestPlan) /\ PhaseFull
 
-BeginNest(h) ==
+NewPhase(w) == [stmts |-> <<>>, nobar |-> FALSE, wrap |-> w]
+BeginNest(h, w) ==
   /\ stage = "build"
   /\ CurNest = 0 \/ NestFull
   /\ CurNest < Len(plan)
   /\ HeadOK(h)
-  /\ h.style.tile => Len(plan[CurNest + 1]) = 1
-  /\ kern' = [nests |-> Append(kern.nests, [h EXCEPT !.phases = << [stmts |-> <<>>, nobar |-> FALSE] >>])]
+  /\ h.style.tile => (Len(plan[CurNest + 1]) = 1 /\ w = "none")
+  /\ kern' = [nests |-> Append(kern.nests, [h EXCEPT !.phases = << NewPhase(w) >>])]
   /\ UNCHANGED <<stage, cls, plan, runvars>>
 
 AddStmt(s) ==
@@ -325,11 +343,11 @@ AddStmt(s) ==
   /\ UNCHANGED <<stage, cls, plan, runvars>>
 
 \* close the phase (choosing whether its @inner loop carries @nobarrier) and open the next
-NextPhase(nb) ==
+NextPhase(nb, w) ==
   /\ stage = "build"
   /\ PhaseFull /\ CurPhase < Len(NestPlan)
   /\ kern' = [kern EXCEPT !.nests[CurNest].phases =
-                Append([@ EXCEPT ![CurPhase].nobar = nb], [stmts |-> <<>>, nobar |-> FALSE])]
+                Append([@ EXCEPT ![CurPhase].nobar = nb], NewPhase(w))]
   /\ UNCHANGED <<stage, cls, plan, runvars>>
 
 Finish ==
@@ -377,20 +395,21 @@ Advance(o, i, s, nsub) ==     \* after one sub-step of statement s that has nsub
 
 StepStmt(o, i) ==
   LET p  == pc[o][i]
-      s  == RunNest.phases[p.ph].stmts[p.st]
+      ph == RunNest.phases[p.ph]
+      s  == ph.stmts[p.st]
       S  == View(o, i)
       arg == ArgVecs[av]
   IN
   /\ ~AtPhaseEnd(o, i)
-  /\ IF ~Guard(s, RunNest, arg, o, i, S)
+  /\ IF ~Guard(s, ph, RunNest, arg, o, i, S)
        THEN /\ pc' = [pc EXCEPT ![o][i].st = @ + 1, ![o][i].sub = 0]
             /\ UNCHANGED <<mem, shm, exv, tmpv, reg>>
-     ELSE IF s.op = "atomic" /\ AtomicIndivisible
+     ELSE IF s.op \in AtomicOps /\ AtomicIndivisible
        THEN \* n indivisible updates, one per step
             /\ WriteBack(o, i, Apply(s, RunNest, arg, o, i, S))
             /\ Advance(o, i, s, s.n)
             /\ UNCHANGED reg
-     ELSE IF s.op = "atomic"
+     ELSE IF s.op \in AtomicOps
        THEN \* mutant: plain `acc[c] += e`: load, then store
             LET env == Env(RunNest, arg, o, i, S)
                 a   == AccCell(s.cell, env) + 1
@@ -398,7 +417,7 @@ StepStmt(o, i) ==
                  THEN /\ reg' = [reg EXCEPT ![o][i] = mem.acc[a]]
                       /\ Advance(o, i, s, 2 * s.n)
                       /\ UNCHANGED <<mem, shm, exv, tmpv>>
-                 ELSE /\ mem' = [mem EXCEPT !.acc[a] = reg[o][i] + Eval(s.e, env)]
+                 ELSE /\ mem' = [mem EXCEPT !.acc[a] = reg[o][i] + AtomDelta(s, Eval(s.e, env))]
                       /\ Advance(o, i, s, 2 * s.n)
                       /\ UNCHANGED <<shm, exv, tmpv, reg>>
      ELSE \* every other statement touches only storage owned by this iteration
@@ -411,7 +430,7 @@ StepStmt(o, i) ==
 StepPhase(o, i) ==
   LET p == pc[o][i].ph IN
   /\ AtPhaseEnd(o, i) /\ p < Len(RunNest.phases)
-  /\ BarAfter(RunNest, p) =>
+  /\ (BarAfter(RunNest, p) /\ PhaseOn(RunNest.phases[p], ArgVecs[av], o)) =>
        \A j \in Threads(RunNest) : pc[o][j].ph > p \/ (pc[o][j].ph = p /\ AtPhaseEnd(o, j))
   /\ pc' = [pc EXCEPT ![o][i] = [ph |-> p + 1, st |-> 1, sub |-> 0]]
   /\ tmpv' = [tmpv EXCEPT ![o][i + 1] = UNDEF]
@@ -434,11 +453,11 @@ Step == /\ stage = "run"
 \*  where they are needed)
 Build == /\ stage = "build"
          /\ \/ /\ (CurNest = 0 \/ NestFull) /\ CurNest < Len(plan)
-               /\ \E h \in Heads(cls) : BeginNest(h)
+               /\ \E h \in Heads(cls), w \in Wraps(cls) : BeginNest(h, w)
             \/ /\ CurNest > 0 /\ CurPhase > 0 /\ ~PhaseFull
                /\ \E s \in Menu(cls) : AddStmt(s)
             \/ /\ PhaseFull /\ CurPhase < Len(NestPlan)
-               /\ \E nb \in NoBarChoices(cls) : NextPhase(nb)
+               /\ \E nb \in NoBarChoices(cls), w \in Wraps(cls) : NextPhase(nb, w)
             \/ Finish
 
 Next == Build \/ (\E a \in CheckArgs : Launch(a)) \/ Step \/ NextLaunch
